@@ -253,7 +253,8 @@ pub fn prop() -> Prop {
         cases_thorough: 800_000,
         assumptions: &["a hang is reported as inconclusive (exit 2) by a 120 s per-case watchdog", "|exponent| <= 1e3 or infinite"],
         post: None,
-        watchdog_s: 120,
+        watchdog_s: 60,
+        hang_is_violation: true,
         shrink_iters: 300,
     }
 }
